@@ -168,7 +168,7 @@ def gen_cases(rng, tier, stats):
                         c["kind"] = "exhaustive"
                         cases.append(c)
     stats["exhaustive_small"] = len(cases)
-    nrand = 600 if tier == "quick" else 6000
+    nrand = 500 if tier == "quick" else 6000
     for _ in range(nrand):
         n = rng.choice([3, 4, 5, 6, 7, 8, 9, 10, 12, 14, 16, 18, 20, 22, 25])
         c = make_case(rng, n, rng.choice(SHAPES))
@@ -341,9 +341,12 @@ def run(tier, seed, rng):
     # ---- (T)
     idx = [i for i, r in enumerate(res) if not r.get("err")]
     terms = [coq_term(cases[i], res[i]) for i in idx]
-    badidx = fw.run_coq_cases("C16", REQ, CASE_TYPE, "tie_check", terms, shard=120)
     vterms = [coq_vterm(cases[i], res[i]) for i in idx]
-    vbad = fw.run_coq_cases("C16v", REQ + ["Plan.Values"], "vtie_case", "vtie_check", vterms, shard=120)
+    from concurrent.futures import ThreadPoolExecutor
+    with ThreadPoolExecutor(max_workers=2) as ex:
+        f1 = ex.submit(fw.run_coq_cases, "C16", REQ, CASE_TYPE, "tie_check", terms, 120)
+        f2 = ex.submit(fw.run_coq_cases, "C16v", REQ + ["Plan.Values"], "vtie_case", "vtie_check", vterms, 120)
+        badidx, vbad = f1.result(), f2.result()
     for j in vbad[:20]:
         if j not in badidx:
             out.tie_mismatches.append({"case": cases[idx[j]], "impl": res[idx[j]],
